@@ -202,9 +202,11 @@ class Seam:
         if p is None:
             return None
         p = os.fspath(p)
+        if p.startswith("<"):
+            return p
         if not p.startswith("/"):
             p = os.path.abspath(p)
-        if p.startswith(self.root):
+        if p.startswith(self.root + "/"):
             return p[len(self.root) + 1 :]
         return p
 
